@@ -687,6 +687,26 @@ def array_copies(f):
             inc = any(m and m['k'] == 'un' and m['op'] == '++' and f.nodes[m['e']] and f.nodes[m['e']].get('n') == var for m in f.nodes)
             full = init0 and bound and inc
         out.append((base_name(l), base_name(r), full))
+    # std::copy(src, src + N, dst) over whole arrays
+    def arr_name(x):
+        n = f.nodes[x] if x else None
+        while n and n['k'] in ('icast', 'cast'): n = f.nodes[n['e']]
+        if n and n['k'] == 'mem':
+            o = f.nodes[n['b']]
+            return ('rhs.' if o and o['k'] == 'ref' else '') + n['n']
+        if n and n['k'] == 'ref': return n['n']
+        return None
+    for i, n in enumerate(f.nodes):
+        if n and n['k'] == 'call' and n.get('n') in ('copy', 'copy_n') and n.get('org') == 0 and len(n['args']) == 3:
+            a0, a1, a2 = n['args']
+            src = arr_name(a0); dst = arr_name(a2)
+            e = f.nodes[a1]
+            while e and e['k'] in ('icast', 'cast'): e = f.nodes[e['e']]
+            full = False
+            if e and e['k'] == 'bin' and e['op'] == '+' and arr_name(e['lhs']) == src:
+                regions = (f.cls_args() or [None])[-1]
+                full = const_of(f, e['rhs']) == regions
+            out.append((dst, src, full))
     return out
 
 HIST_BACK = {   # class -> method -> expected set of (dst, src) copies over all regions
@@ -1155,3 +1175,44 @@ def poly(F, R):
             ok = d['passes'] == {rd}
             R.ob('C20.erasure', ok, {'exit_point': Facts.short(ct, 80), 'callee_reads': Facts.short(str(rd), 40), 'caller_passes': [Facts.short(x, 40) for x in d['passes']]})
             if not ok: R.find('C20.erasure', ('boost/msm/backmp11/detail/state_machine_base.hpp', 'boost::msm::backmp11::detail::state_machine_base::exit_pt::forward_event'), 'exit-forwarder', 'the exit point forwarder is handed a pointer to %s but reads a %s through it' % ([Facts.short(x, 40) for x in d['passes']], Facts.short(str(rd), 40)), instance=Facts.short(ct, 160))
+
+
+SPECIAL_EXEMPT = {   # class -> {field: reason} for user-provided copy operations that deliberately do not copy a member
+    'state_machine': {'*': 'back / back11: the copy goes through do_copy (rule C15.fields)'},
+    'exit_pt': {'m_forward': 'keeps its own forwarder: the containing machine did not change', 'm_forward_fn': 'set by the container\'s wiring'},
+    'non_propagating': {'m_value': 'by design: the wrapped root pointer must not propagate (rule C15.pool)'},
+    'basic_polymorphic_base': {'m_ptr': 'copied through the control block', 'm_buffer': 'copied through the control block'},
+    'state_machine_base': {'*': 'delegates to the default constructor and the defaulted assignment (rule C15.ctor)'},
+    'entry_pt': {'*': 'no data'}, 'direct': {'*': 'no data'},
+}
+
+@rule('copyspecial')
+def copyspecial(F, R):
+    """C15.fields: a user-provided copy constructor / copy assignment of a back-end class copies every data member of the class
+    (a member forgotten in a hand-written copy operation silently keeps its default)."""
+    for f in F.funcs:
+        if not is_backend(f) or not f.blocks: continue
+        sp = f.d.get('sp')
+        if sp not in ('copy_ctor', 'copy_assign') or f.d.get('implicit') or f.d.get('defaulted'): continue
+        rec = F.rec_by_type(F.class_type(f))
+        if rec is None or not rec['fields']: continue
+        ex = SPECIAL_EXEMPT.get(f.cls, {})
+        if '*' in ex: continue
+        R.seen(f); R.anchor('user-copy-op:' + backend_of(f))
+        written = set(members_touched(f))
+        for dst, src, full in array_copies(f):
+            if dst: written.add(dst)
+        for n in f.nodes:
+            if n and n['k'] == 'init' and n.get('member') and n.get('written'): written.add(n['member'])
+            if n and n['k'] == 'call' and n.get('obj'):
+                # container members filled by calls (assign / insert / push_back / operator=)
+                ch = member_chain(f, n['obj'])
+                o = f.nodes[n['obj']]
+                if ch and n.get('n') in ('assign', 'insert', 'push_back', 'emplace_back', 'operator=', 'swap', 'resize', 'reserve') or (ch and n.get('op') == '='):
+                    b = o
+                    while b and b['k'] == 'mem' and f.nodes[b['b']] and f.nodes[b['b']]['k'] == 'mem': b = f.nodes[b['b']]
+                    if b and b['k'] == 'mem' and f.nodes[b['b']] and f.nodes[b['b']]['k'] == 'this': written.add(ch[0])
+        missing = [fd['n'] for fd in rec['fields'] if fd['n'] and fd['n'] not in written and fd['n'] not in ex]
+        R.ob('C15.fields', not missing, {'func': f.q, 'fields': [fd['n'] for fd in rec['fields']], 'copied': sorted(written)})
+        if missing:
+            R.find('C15.fields', f, 'user-copy-missing:' + ','.join(missing), 'the user-provided %s of %s does not copy data member(s) %s' % ('copy constructor' if sp == 'copy_ctor' else 'copy assignment', f.cls, missing))
